@@ -17,7 +17,9 @@ from harness.props import c02
 RULE = ("malformed stream for each codec: random bytes (0-300), truncation at every field boundary +-1, "
         "1-4 byte mutations, targeted edits (each channel offset to boundary values; the bits byte of one "
         "block to all 256 values; table / values offsets to boundary values), extensions, decoding with a "
-        "different shape / block / dtype / channel count; plus the unmodified valid encodings. "
+        "different shape / block / dtype / channel count; plus the unmodified valid encodings; sessions: one "
+        "decoder object per codec decodes A, a rejected buffer, B (same shape), A again and every array handed "
+        "out earlier is re-checked. "
         "non-trivial = buffer derived from a valid encoding with >= 2 blocks or channels (cseg), any "
         "non-empty buffer (raw), any buffer Pillow can open (jpeg)")
 
@@ -501,10 +503,63 @@ def run_regressions(R):
         R.violation("jpeg decoder raised something other than InvalidFormatError", case, {"impl": impl})
 
 
+def run_sessions(R, quick):
+    """ONE decoder object per codec decodes valid chunk A, a rejected buffer, valid chunk B of the
+    same shape, A again: every array handed out earlier must still hold its chunk afterwards."""
+    import numpy as np
+    import PIL.Image
+    rng = R.rng
+    for rep in range(6 if quick else 60):
+        C = rng.choice([1, 3])
+        shape = [rng.randint(1, 5) for _ in range(3)]
+        X, Y, Z = shape
+        n = C * X * Y * Z
+        sessions = []
+        # compressed_segmentation
+        dt = rng.choice(["uint32", "uint64"])
+        blk = [rng.choice([1, 2, 3, 8]) for _ in range(3)]
+        enc = c02.make_encoder(dt, C, blk)
+        arrs = [c02.arr_of(dt, C, shape, c02.gen_values(rng, dt, C, shape, blk, rng.choice([1, 2, 5]))) for _ in range(3)]
+        sessions.append(("cseg", enc, [(bytes(enc.encode(a)), c02.canon_arr(a)[2]) for a in arrs], {"dt": dt, "blk": blk}))
+        # raw
+        rdt = rng.choice(list(RAW_TYPES))
+        enc = make_raw(rdt, C)
+        datas = [bytes(rng.randrange(256) for _ in range(n * RAW_TYPES[rdt])) for _ in range(3)]
+        sessions.append(("raw", enc, [(d, d) for d in datas], {"dt": rdt}))
+        # jpeg: expectation = Pillow's pixels rearranged as documented
+        enc = make_jpeg(C)
+        items = []
+        for _ in range(3):
+            a = np.array([rng.randrange(256) for _ in range(n)], dtype=np.uint8).reshape(C, Z, Y, X)
+            b = bytes(enc.encode(a))
+            img = np.asarray(PIL.Image.open(io.BytesIO(b)))
+            ref = img.reshape(1, Z, Y, X) if C == 1 else np.moveaxis(img, -1, 0).reshape(3, Z, Y, X)
+            items.append((b, ref.tobytes()))
+        sessions.append(("jpeg", enc, items, {}))
+        for codec, enc, items, extra in sessions:
+            got = []
+            with warnings.catch_warnings():
+                warnings.simplefilter("ignore")
+                for i in (0, 1, 2, 0, 1):
+                    buf, want = items[i]
+                    outcome_of(lambda: enc.decode(buf[:max(0, len(buf) - 3)], shape))   # error path in between
+                    got.append((i, enc.decode(buf, shape)))
+            case = dict({"codec": codec, "kind": "session", "C": C, "shape": shape,
+                         "bufs": [b for b, _w in items]}, **extra)
+            R.case(case, nontrivial=True)
+            R.count(f"{codec}:session")
+            for i, arr in got:
+                if np.ascontiguousarray(arr).tobytes() != items[i][1]:
+                    R.violation("an array returned by decode() is wrong after later decode() calls on the same "
+                                "decoder object", dict(case, index=i), {})
+                    break
+
+
 def run(R):
     R.rule = RULE
     quick = R.tier == "quick"
     run_regressions(R)
+    run_sessions(R, quick)
     run_cseg(R, quick)
     run_raw(R, quick)
     run_jpeg(R, quick)
@@ -545,9 +600,36 @@ def _replay_correspondence(R, case, buf):
         return impl != mod
 
 
+def _replay_session(case):
+    """True iff an array handed out by the decoder object differs, after the later calls, from what the
+    same bytes decode to on a fresh decoder object."""
+    import numpy as np
+    bufs = [_bytes(b) for b in case["bufs"]]
+    shape, C, codec = case["shape"], case["C"], case["codec"]
+
+    def fresh():
+        if codec == "cseg":
+            return c02.make_encoder(case["dt"], C, case["blk"])
+        return make_raw(case["dt"], C) if codec == "raw" else make_jpeg(C)
+    with warnings.catch_warnings():
+        warnings.simplefilter("ignore")
+        try:
+            want = [np.ascontiguousarray(fresh().decode(b, shape)).tobytes() for b in bufs]
+            enc = fresh()
+            got = []
+            for i in (0, 1, 2, 0, 1):
+                outcome_of(lambda: enc.decode(bufs[i][:max(0, len(bufs[i]) - 3)], shape))
+                got.append((i, enc.decode(bufs[i], shape)))
+        except Exception:  # noqa: BLE001
+            return True
+    return any(np.ascontiguousarray(a).tobytes() != want[i] for i, a in got)
+
+
 def replay(R, payload):
     """True iff the recorded buffer still makes the decoder misbehave."""
     case = payload.get("case") or (payload.get("disagreements") or [{}])[0].get("case", {})
+    if case.get("kind") == "session":
+        return _replay_session(case)
     if "buf" not in case:
         return True
     buf = _bytes(case["buf"])
